@@ -55,6 +55,8 @@ def check_output(table, newick, data, samples, cluster_rows, expect_state, label
     extra = set(map(str, table["sample_id"])) - set(samples)
     if extra:
         probs.append("%s: unknown samples %r" % (label, sorted(extra)))
+    if probs:
+        return probs, None  # the rows are not the input mutations: nothing further can be decoded
     dec, dp = traces.decode(table, newick, name_to_idx, cluster_of)
     probs += ["%s: %s" % (label, p) for p in dp]
     if probs:
@@ -127,7 +129,8 @@ def check_output(table, newick, data, samples, cluster_rows, expect_state, label
 
 
 def case(item):
-    n, spec, clustered, dims = item
+    n, spec, clustered, dims = item[:4]
+    layout = item[4] if len(item) > 4 else None  # (number of chains, order in which the chains completed)
     from phyclone.process_trace import write_map_results, write_consensus_results, write_topology_report
 
     res = {"item": item, "problems": [], "outputs": 0}
@@ -146,7 +149,12 @@ def case(item):
             chains = {0: [(trees[0], -3.0), (trees[1], -1.0)]}
         else:
             chains = {0: [(t, -1.0 - 0.5 * k) for k, t in enumerate(trees)]}
-        results = traces.make_results(data, samples, chains)
+        if layout is not None:
+            # the same entries in every chain (the expected outputs stay what they are), chains stored in completion order
+            chains = {c: list(chains[0]) for c in range(layout[0])}
+            results = traces.make_results(data, samples, chains, insertion_order=list(layout[1]))
+        else:
+            results = traces.make_results(data, samples, chains)
         path = traces.write_trace(d, results, crows)
         single = sts[0] if (len(sts) == 1 or spec[0] == "revisit") else None
         jobs = []
@@ -248,7 +256,7 @@ def large_case(item):
 def main(tier, seed):
     chk = Check("C12", tier, seed)
     chk.rule = ("every tree over n<=3 data points incl. every outlier subset (all-outlier, single-clone ...) and multisets whose consensus has empty clones, x "
-                "{unclustered, clustered with integer ids and sizes (1,2,1)} x samples {1,2}; each through map (both modes), consensus (both weightings), "
+                "{unclustered, clustered with integer ids and sizes (1,2,1)} x samples {1,2} x {one chain, 2 or 3 chains stored in a completion order that does not start with chain 0}; each through map (both modes), consensus (both weightings), "
                 "topology-report + archive; outputs decoded (table + Newick) and compared with the input mutation list, the trace's tree, feasibility and the "
                 "brute-force CCF optimum; non-trivial = tree with >= 2 clones or an outlier")
     chk.assumptions = ["Newick node labels are compared as strings with the table's clone_id", "an empty clone (consensus trees) has no table row"]
@@ -270,6 +278,9 @@ def main(tier, seed):
                 for cl in (False, True):
                     for dims in (1, 2):
                         items.append((n, ("empty-clone", k), cl, dims))
+    # several chains, stored in every order in which they can complete (run() fills the result dictionary in completion order)
+    layouts = [(2, (1, 0)), (3, (1, 2, 0)), (3, (2, 1, 0))]
+    items += [it + (layouts[k % 3],) for k, it in enumerate(list(items)) if it[3] == 1 or k % 4 == 0]
     from mc.checks.c02 import large_forests
 
     litems = [(par, cl, k) for k, par in enumerate(p_ for p_ in large_forests() if len(p_) == 8) for cl in (False, True)]
@@ -282,16 +293,17 @@ def main(tier, seed):
             chk.violation({"sub": "table-large", "command": pr.split(":")[0].split("/")[0], "clustered": r["item"][1], "what": pr.split(":")[1].strip()[:40] if ":" in pr else pr[:40]},
                           {"forest_parent_vector": list(r["item"][0]), "clustered": r["item"][1], "problem": pr}, {"large": [list(r["item"][0]), r["item"][1], r["item"][2]]})
     for r in pool_imap(case, items, chunksize=2):
-        n, spec, cl, dims = r["item"]
-        chk.states.add((n, spec))
+        n, spec, cl, dims = r["item"][:4]
+        layout = r["item"][4] if len(r["item"]) > 4 else None
+        chk.states.add((n, spec, layout))
         chk.transitions += r["outputs"]
         chk.traces_validated += r["outputs"]
         sts = spec_states(spec, n)
         if len(sts) > 1 or len(sts[0][0]) >= 2 or sts[0][1]:
-            chk.nontrivial.add((n, spec, cl, dims))
+            chk.nontrivial.add((n, spec, cl, dims, layout))
         for pr in r["problems"][:3]:
-            chk.violation({"sub": "table", "command": pr.split(":")[0].split("/")[0], "clustered": cl, "what": pr.split(":")[1].strip()[:40] if ":" in pr else pr[:40]},
-                          {"n": n, "trace": [oracle.fmt_state(s) for s in sts], "clustered": cl, "samples": dims, "problem": pr}, {"item": [n, list(spec), cl, dims]})
+            chk.violation({"sub": "table", "command": pr.split(":")[0].split("/")[0], "clustered": cl, "chains": layout[0] if layout else 1, "what": pr.split(":")[1].strip()[:40] if ":" in pr else pr[:40]},
+                          {"n": n, "trace": [oracle.fmt_state(s) for s in sts], "clustered": cl, "samples": dims, "chains_and_completion_order": layout, "problem": pr}, {"item": [n, list(spec), cl, dims, layout]})
         if len(chk.samples) < 3 and n == 3 and len(sts) == 1 and len(sts[0][0]) == 2:
             chk.sample({"tree": oracle.fmt_state(sts[0]), "clustered": cl, "samples": dims, "outputs_decoded": r["outputs"]})
     return chk.finish()
@@ -305,6 +317,6 @@ def replay(path):
         print(r["problems"])
         return 1 if r["problems"] else 0
     it = body["replay"]["item"]
-    r = case((it[0], tuple(it[1]), it[2], it[3]))
+    r = case((it[0], tuple(it[1]), it[2], it[3]) + (((it[4][0], tuple(it[4][1])),) if len(it) > 4 and it[4] else ()))
     print(r["problems"])
     return 1 if r["problems"] else 0
